@@ -256,6 +256,20 @@ fn check(spec: &RuleSpec, extra_docs: &[MObj], examples: &(Y, Y), th: bool) -> S
                 replay: json!({"kind":"roundtrip","rule_yaml":text0,"sw_bits":sw}),
             });
         }
+        // optimising the reloaded rule: a rule serialised before optimisation optimises to what the
+        // original optimises to; a rule serialised after optimisation carries the flag and is
+        // left alone
+        if let (Ok((ob, _)), Ok((oo, _))) = (eng::optimise_with(&back, eng::SW_DEFAULT, &[]), eng::optimise_with(&r, eng::SW_DEFAULT, &[])) {
+            st.transitions += 2;
+            let expect = if sw == 0 { eng::canon(&oo) } else { eng::canon(&back) };
+            if eng::canon(&ob) != expect {
+                st.push_violation(Violation {
+                    signature: format!("optimise-after-reload-differs:{}", if sw == 0 { "from-optimising-the-original" } else { "an-already-optimised-rule-is-optimised-again" }),
+                    witness: format!("{} instead of {} ; rule {}", eng::canon(&ob), expect, one_line(&text0)),
+                    replay: json!({"kind":"roundtrip","rule_yaml":text0,"sw_bits":sw}),
+                });
+            }
+        }
         // verdicts
         for (i, d) in docs.iter().enumerate() {
             let got = eng::matches(&back, d);
